@@ -202,9 +202,10 @@ Theorem C01_e2e_oracle_reachable : forall (L : Z) W kinds ops,
   exists os, forallb nwb_op os = true /\ e2e_run L (init W kinds) 1%N ops = run L (init W kinds) os.
 Proof. exact e2e_states_are_reachable. Qed.
 
-(* ... also with abortive clients (connection ids whose service call ends by itself as soon as it has started; each operation
-   comes with the ids known when it is issued) *)
-Theorem C01_e2e_ab_oracle_reachable : forall (L : Z) W kinds (ops : list (list N * e2e_op)),
+(* ... also with abortive clients (connection ids whose service call ends by itself as soon as it has started) and back-pressure
+   episodes (no worker picks anything up while the flag is set); each operation comes with the flag in force and the ids known
+   when it is issued *)
+Theorem C01_e2e_ab_oracle_reachable : forall (L : Z) W kinds (ops : list (bool * list N * e2e_op)),
   forallb nwb_op (e2e_script_ab L (init W kinds) 1%N ops) = true /\
   e2e_run_ab L (init W kinds) 1%N ops = run L (init W kinds) (e2e_script_ab L (init W kinds) 1%N ops).
 Proof. intros L W kinds ops. split; [apply e2e_script_ab_nw | apply e2e_run_ab_is_run]. Qed.
@@ -212,9 +213,20 @@ Proof. intros L W kinds ops. split; [apply e2e_script_ab_nw | apply e2e_run_ab_i
 (* non-vacuity: one worker, limit 1, paused; an abortive client and an ordinary one wait in the backlog; after Resume the abortive
    one is served first and ends by itself, then the ordinary one is in progress *)
 Example C01_e2e_ab_example :
-  let st := e2e_run_ab 1 (init 1 [false]) 1%N [([], XPause); ([1%N], XConnect 0); ([1%N], XConnect 0); ([1%N], XResume)] in
+  let st := e2e_run_ab 1 (init 1 [false]) 1%N [(false, [], XPause); (false, [1%N], XConnect 0); (false, [1%N], XConnect 0); (false, [1%N], XResume)] in
   err st = None /\ map (fun w => map c_id (w_picked w)) (ws st) = [[2%N]] /\
   length (filter (fun e => match e with EvDispatch _ _ _ _ _ => true | _ => false end) (trace st)) = 2.
+Proof. vm_compute. repeat split. Qed.
+
+(* non-vacuity: back-pressure — limit 2, one worker; the second and third client are dispatched while the services are not ready and
+   stay in the worker's queue (they count against the limit: the fourth waits in the backlog); they are picked up when readiness
+   returns *)
+Example C01_e2e_block_example :
+  let ops := [(false, [], XConnect 0); (true, [], XConnect 0); (true, [], XConnect 0); (true, [], XFinish 1%N)] in
+  let st := e2e_run_ab 2 (init 1 [false]) 1%N ops in
+  let st' := e2e_run_ab 2 (init 1 [false]) 1%N (ops ++ [(false, [], XAdvance 0)]) in
+  err st = None /\ map (fun w => (map c_id (w_picked w), map c_id (w_queue w))) (ws st) = [([], [2%N; 3%N])] /\
+  map (fun w => (map c_id (w_picked w), map c_id (w_queue w))) (ws st') = [([2%N; 3%N], [])].
 Proof. vm_compute. repeat split. Qed.
 
 (* non-vacuity: two workers, limit 1; a connection whose service call panics kills worker 1's generation, the next connection's
